@@ -150,6 +150,9 @@ def edge_family(rng, fam, n, L, Nk):
         return np.linspace(0.013 * dk, kN * rng.uniform(1.05, 1.7), Nk + 1)
     if fam == 'beyond_all':
         return np.linspace(0, kmax_all * 1.3, Nk + 1)
+    if fam == 'nyq_shell':
+        # a range that starts just inside the Nyquist plane: columns whose only in-range mode sits on kz = n/2
+        return np.linspace((n // 2 - 0.52) * dk, kmax_all, Nk + 1)
     if fam == 'notie':
         return np.linspace(0.0131 * dk, kN * 0.9973, Nk + 1)
     if fam == 'notie_wide':
@@ -330,7 +333,7 @@ def check(run):
     from abacusnbody.analysis import power_spectrum as ps
 
     rng = run.rng(0)
-    fams = ['notie', 'notie_wide', 'lin0_nyq', 'linkf', 'log', 'random', 'above0_belownyq', 'beyond_nyq', 'beyond_all']
+    fams = ['notie', 'notie_wide', 'lin0_nyq', 'linkf', 'log', 'random', 'above0_belownyq', 'beyond_nyq', 'beyond_all', 'nyq_shell']
     ns = list(range(2, 17)) if run.quick else list(range(2, 33)) + [48, 64]
     reps = 1 if run.quick else 6
     k = 0
